@@ -10,6 +10,7 @@ Extracted from the live source on every run:
     expression in f_arr[k] (k in 0,1,2,-3,-2,-1) and pad_const with rational coefficients;
   * what each operator class's `.adjoint` / `.derivative` build (adjSpec / derivSpec): the
     `return [-]Cls(…)` expressions, arguments bound against the constructor signature.
+  * the one `for axis in range(ndim)` loop of Gradient/Divergence/Laplacian._call (accProg).
 The grammar is deliberately tiny.  Anything outside it raises ExtractionError, which the
 check treats as a broken obligation (then searches the real code), never as a pass.
 """
@@ -481,6 +482,79 @@ def _derivative_spec(cls, body, classes):
     return dict(kind=kind, zeroC=zero_c)
 
 
+LOOP_MARK = '<loop over the axes: regenerated (accProg)>'
+FD_KW = ['axis', 'dx', 'method', 'pad_mode', 'pad_const', 'out']
+
+
+def _fd_call(st, where):
+    """`finite_diff(src, axis=axis, dx=…, method=…, pad_mode=self.pad_mode,
+    pad_const=self.pad_const, out=…)` -> dict(comp, dxSq, meth, out)"""
+    if not isinstance(st, ast.Expr) or not isinstance(st.value, ast.Call) or \
+            _u(st.value.func) != 'finite_diff' or len(st.value.args) != 1:
+        raise ExtractionError(where + ': expected a finite_diff(...) call, got ' + _u(st)[:80])
+    kw = {k.arg: _u(k.value) for k in st.value.keywords}
+    if sorted(kw) != sorted(FD_KW) or kw['axis'] != 'axis' or \
+            kw['pad_mode'] != 'self.pad_mode' or kw['pad_const'] != 'self.pad_const':
+        raise ExtractionError(where + ': finite_diff keywords outside the grammar: ' + repr(kw))
+    src = {'x[axis]': True, 'x_arr': False}.get(_u(st.value.args[0]))
+    dxsq = {'dx[axis]': False, 'dx[axis] ** 2': True, 'dx[axis] * dx[axis]': True}.get(kw['dx'])
+    meth = {'self.method': None, "'forward'": 'forward', "'backward'": 'backward',
+            "'central'": 'central'}.get(kw['method'], 0)
+    if src is None or dxsq is None or meth == 0 or kw['out'] not in ('tmp', 'out_arr'):
+        raise ExtractionError(where + ': finite_diff arguments outside the grammar: ' +
+                              _u(st)[:160])
+    return dict(comp=src, dxSq=dxsq, meth=meth, out=kw['out'])
+
+
+def _loop_prog(cls, node):
+    """The ONE `for axis in range(ndim)` loop of `_call` as data:
+    -> (the For node, dict(perAxis, steps=[dict(meth, dxSq, neg, comp)])).
+    Grammar of the loop body:  finite_diff(…, out=tmp) followed by `out_arr += tmp` /
+    `out_arr -= tmp` / `if axis == 0: out_arr[:] = tmp else: out_arr += tmp` (any number of such
+    pairs; result = accumulated array), or  `with writable_array(out[axis]) as out_arr:
+    finite_diff(…, out=out_arr)` (result component `axis`)."""
+    where = cls.name + '._call'
+    loops = [st for st in ast.walk(node) if isinstance(st, ast.For)]
+    if len(loops) != 1 or _u(loops[0].target) != 'axis' or _u(loops[0].iter) != 'range(ndim)' \
+            or loops[0].orelse:
+        raise ExtractionError(where + ': expected one `for axis in range(ndim)` loop')
+    body = loops[0].body
+    if len(body) == 1 and isinstance(body[0], ast.With):
+        w = body[0]
+        if len(w.items) != 1 or _u(w.items[0].context_expr) != 'writable_array(out[axis])' or \
+                _u(w.items[0].optional_vars) != 'out_arr' or len(w.body) != 1:
+            raise ExtractionError(where + ': with-statement in the loop outside the grammar')
+        c = _fd_call(w.body[0], where)
+        if c['out'] != 'out_arr':
+            raise ExtractionError(where + ': component loop must write into out_arr')
+        return loops[0], dict(perAxis=True, steps=[dict(meth=c['meth'], dxSq=c['dxSq'],
+                                                        neg=False, comp=c['comp'])])
+    if len(body) % 2 or not body:
+        raise ExtractionError(where + ': loop body is not a list of (finite_diff, update) pairs')
+    steps = []
+    for call, upd in zip(body[0::2], body[1::2]):
+        c = _fd_call(call, where)
+        if c['out'] != 'tmp':
+            raise ExtractionError(where + ': accumulating loop must write into tmp')
+        u = _u(upd)
+        first = 'if axis == 0:\n    out_arr[:] = tmp\nelse:\n    out_arr += tmp'
+        if u == 'out_arr += tmp' or (u == first and not steps):
+            neg = False
+        elif u == 'out_arr -= tmp':
+            neg = True
+        else:
+            raise ExtractionError(where + ': update outside the grammar: ' + u[:120])
+        steps.append(dict(meth=c['meth'], dxSq=c['dxSq'], neg=neg, comp=c['comp'],
+                          assign_first=(u == first)))
+    # `out_arr[:] = tmp` on the first axis needs no zero initialisation; `+=` from the start does
+    init_zero = any('set_zero()' in _u(st) or '.zero()' in _u(st) for st in node.body)
+    if not steps[0].pop('assign_first') and not init_zero:
+        raise ExtractionError(where + ': accumulation starts with += but out is not zeroed')
+    for s_ in steps[1:]:
+        s_.pop('assign_first')
+    return loops[0], dict(perAxis=False, steps=steps)
+
+
 def _class_pins(cls, classes=None):
     """Normalised text of __init__, _call, adjoint, derivative of one operator class, with the
     two data-shaped parts taken OUT of the text and returned as flags:
@@ -519,12 +593,25 @@ def _class_pins(cls, classes=None):
             if classes is not None:     # ROUND 4: read, not pinned
                 flags['adj_spec'] = _adjoint_spec(cls, stmts, classes)
                 body = [ADJ_MARK]
+        if node.name == '_call' and classes is not None and cls.name != 'PartialDerivative':
+            loop, flags['acc_prog'] = _loop_prog(cls, node)
+            ltxt = _norm(loop)
+            wtxt = [_norm(w) for w in ast.walk(node) if isinstance(w, ast.With) and
+                    loop in w.body]
+            hit = [i for i, b in enumerate(body) if b == ltxt or (wtxt and b == wtxt[0])]
+            if len(hit) != 1:
+                raise ExtractionError(cls.name + '._call: loop is not a top-level statement')
+            if wtxt and body[hit[0]] == wtxt[0]:
+                w = [w for w in ast.walk(node) if isinstance(w, ast.With) and loop in w.body][0]
+                if len(w.body) != 1 or _u(w.items[0].context_expr) != 'writable_array(out)':
+                    raise ExtractionError(cls.name + '._call: with-block around the loop')
+            body[hit[0]] = LOOP_MARK
         if node.name == 'derivative' and classes is not None:
             flags['der_spec'] = _derivative_spec(cls, stmts, classes)
             body = [DER_MARK]
         pins[node.name] = body
     if set(pins) != {'__init__', '_call', 'adjoint', 'derivative'} or \
-            len(flags) != (2 if classes is None else 4):
+            len(flags) != (2 if classes is None else 4 + (cls.name != 'PartialDerivative')):
         raise ExtractionError('class {}: __init__/_call/adjoint/derivative not all found'
                               .format(cls.name))
     return pins, flags
@@ -613,18 +700,7 @@ def _laplacian_rejected(cls):
     for p in rej:
         if p not in PADS:
             raise ExtractionError('Laplacian rejects unknown pad mode ' + repr(p))
-    loop = [st for st in ast.walk(call[0]) if isinstance(st, ast.For)]
-    if len(loop) != 1:
-        raise ExtractionError('Laplacian._call: expected one loop over the axes')
-    got = [_u(s) for s in loop[0].body]
-    want = ["finite_diff(x_arr, axis=axis, dx=dx[axis] ** 2, method='forward', "
-            "pad_mode=self.pad_mode, pad_const=self.pad_const, out=tmp)",
-            'out_arr += tmp',
-            "finite_diff(x_arr, axis=axis, dx=dx[axis] ** 2, method='backward', "
-            "pad_mode=self.pad_mode, pad_const=self.pad_const, out=tmp)",
-            'out_arr -= tmp']
-    if got != want:
-        raise ExtractionError('Laplacian._call loop body changed: ' + repr(got))
+    # (the loop of Laplacian._call is read by _loop_prog since round 5)
     return rej
 
 
@@ -869,6 +945,18 @@ def render(d):
                   k, d['flags'][c]['der_spec']['kind'],
                   'true' if d['flags'][c]['der_spec']['zeroC'] else 'false')
               for c, k in CLASSES.items()] + [
+          '/-- the `for axis in range(ndim)` loop of `Gradient/Divergence/Laplacian._call` as data:',
+          'result per axis or accumulated; per step: method (none = self.method), dx squared?,',
+          'subtracted?, input `x[axis]` (true) or the whole `x` (false) -/',
+          'def accProg : Kind → AccProg',
+          '  | .pd => ⟨true, []⟩'] + [
+              '  | .{} => ⟨{}, [{}]⟩'.format(
+                  k, 'true' if d['flags'][c]['acc_prog']['perAxis'] else 'false',
+                  ', '.join('⟨{}, {}, {}, {}⟩'.format(
+                      'none' if st['meth'] is None else 'some .' + METHODS[st['meth']],
+                      *('true' if st[f] else 'false' for f in ('dxSq', 'neg', 'comp')))
+                      for st in d['flags'][c]['acc_prog']['steps']))
+              for c, k in CLASSES.items() if c != 'PartialDerivative'] + [
           '/-- pad modes `Laplacian.__init__` refuses -/',
           'def lapRejected : List Pad := [{}]'.format(', '.join(
               '.' + PADS[p] for p in d['lap_rejected'])),
